@@ -174,6 +174,8 @@ def exact_loglik(u, w, N, D, data):
     for e in _all_edges(N, D):
         tot -= _lam(u, w, e) / _kappa(N, len(e))
     for e, a in data:
+        if a == 0:
+            continue  # a hyperedge of weight 0 is "not observed": its term a * log(lambda) is 0 whatever lambda is
         lam = _lam(u, w, e)
         if lam <= 0:
             return -math.inf  # an observed hyperedge is impossible under (u, w)
